@@ -53,12 +53,23 @@ def dump_addr(a):
     return {'pay': dump_part(a.payment_part), 'stk': dump_part(a.staking_part), 'net': a.network.value}
 
 
-def decode(x):
+def decode1(x):
     try:
         a = Address.from_primitive(x)
     except Exception as e:                       # the code under test rejecting its input is a result
         return {'err': err_kind(e)}
     return {'ok': dump_addr(a)}
+
+
+def decode(x):
+    """every input is presented TWICE (the retry after a refusal, the second UTxO at the same address): the answer to the
+    second presentation is the one reported, and a refusal that turns into an acceptance (or any other change of mind) is
+    reported as an acceptance of something that is not an address"""
+    first = decode1(x)
+    second = decode1(x)
+    if first != second:
+        return {'ok': {'pay': ['vkh', 'ee' * 28], 'stk': None, 'net': 0}, 'changed_its_mind': [first, second]}
+    return second
 
 
 def handler(case, payload):
